@@ -47,6 +47,12 @@ def kinds():
     K["gneg"] = lambda i, k0: four(i, k0, '<g id="e{i}" transform="scale(-1 2)"><rect xy="{0} {1}" wh="{2} {3}"/></g>') + ([f"e{i}"], None)
     K["use"] = lambda i, k0: (f'<rect id="t{i}" xy="[[{k0}]] 2" wh="[[{k0 + 1}]] 4"/><use id="e{i}" href="#t{i}" x="[[{k0 + 2}]]" y="[[{k0 + 3}]]"/>',
                               [(1, *POS), (3, *SZ), (40, *POS), (-30, *POS)], [f"t{i}", f"e{i}"], None)
+    K["use-x"] = lambda i, k0: (f'<rect id="t{i}" xy="[[{k0}]] 2" wh="[[{k0 + 1}]] 4"/><use id="e{i}" href="#t{i}" x="[[{k0 + 2}]]"/>',
+                                [(1, *POS), (3, *SZ), (40, *POS)], [f"t{i}", f"e{i}"], None)
+    K["use-y"] = lambda i, k0: (f'<circle id="t{i}" cxy="[[{k0}]] 2" r="[[{k0 + 1}]]"/><use id="e{i}" href="#t{i}" y="[[{k0 + 2}]]"/>',
+                                [(1, *POS), (3, *SZ), (40, *POS)], [f"t{i}", f"e{i}"], None)
+    K["use-0"] = lambda i, k0: (f'<rect id="t{i}" xy="[[{k0}]] [[{k0 + 2}]]" wh="[[{k0 + 1}]] 4"/><use id="e{i}" href="#t{i}"/>',
+                                [(1, *POS), (3, *SZ), (40, *POS)], [f"t{i}", f"e{i}"], None)
     K["usesym"] = lambda i, k0: (f'<symbol id="s{i}"><rect xy="[[{k0}]] 2" wh="[[{k0 + 1}]] 4"/></symbol><use id="e{i}" href="#s{i}" x="[[{k0 + 2}]]" y="[[{k0 + 3}]]"/>',
                                  [(1, *POS), (3, *SZ), (40, *POS), (-30, *POS)], [f"e{i}"], None)
     K["clip"] = lambda i, k0: (f'<defs><clipPath id="c{i}"><rect xy="[[{k0}]] 0" wh="[[{k0 + 1}]] 10"/></clipPath></defs><rect id="e{i}" xy="[[{k0 + 2}]] 5" wh="[[{k0 + 3}]] 20" clip-path="url(#c{i})"/>',
@@ -58,7 +64,7 @@ def kinds():
     return K
 
 
-MAIN = ["rect", "circle", "ellipse", "line", "polyline", "polygon", "path", "text", "box", "gtrans", "gscale", "gscale2", "gnest", "gnest2", "gtrans1", "gneg", "use", "usesym", "clip", "shapetext"]
+MAIN = ["rect", "circle", "ellipse", "line", "polyline", "polygon", "path", "text", "box", "gtrans", "gscale", "gscale2", "gnest", "gnest2", "gtrans1", "gneg", "use", "use-x", "use-y", "use-0", "usesym", "clip", "shapetext"]
 NOTHING = ["point", "defs", "specs", "symbol"]
 ROOTS = ["", 'width="200"', 'height="10cm"', 'viewBox="0 0 100 50"', 'width="200" height="10cm"', 'width="30mm" viewBox="1 2 3 4"', 'height="77" viewBox="1 2 3 4"', 'width="1in" height="2in" viewBox="0 0 1 1"']
 
@@ -77,9 +83,9 @@ def templates(tier, seed):
         if a in NOTHING and b in NOTHING:
             continue
         tds.append(dict(fam="pair", kinds=[a, b], border=5, scale="1", root=""))
-    rnd = random.Random(1234)
+    rnd = random.Random(1234 + (seed if tier == "quick" else 0))
     allk = MAIN + NOTHING
-    for _ in range(400):
+    for _ in range(400 if tier == "quick" else 2500):
         ks = rnd.sample(allk, 3)
         if all(k in NOTHING for k in ks):
             continue
@@ -89,8 +95,6 @@ def templates(tier, seed):
     tds.append(dict(fam="empty", kinds=["point"], border=5, scale="1", root=""))
     tds.append(dict(fam="empty", kinds=["defs"], border=5, scale="1", root='width="10"'))
     tds.append(dict(fam="rootextra", kinds=["rect"], border=5, scale="1", root='version="2.0" xmlns:xlink="http://www.w3.org/1999/xlink" id="top"'))
-    if tier == "quick":
-        tds = sample_quota(tds, lambda t: (t["fam"],), {"single": 60, "rootattrs": 50, "pair": 110, "triple": 60, "fragment": 1, "empty": 2, "rootextra": 1}, seed)
     return tds
 
 
